@@ -2132,3 +2132,120 @@ package otto
 //@   requires obj != nil
 //@   calls (*object).getOwnProperty(obj, name) as pr
 //@   ensures result <==> pr != nil
+
+// The fourteen field setters (15.9.5.28-40): each hands the shared prologue its own number
+// of optional fields and the local/UTC flag of its name, and composes the new time from
+// the current one with exactly the supplied fields replaced, in the specified order
+// (e.g. setMinutes(min [, sec [, ms]])).
+//@ func builtinDateSetMilliseconds
+//@   props C12
+//@   nosafety
+//@   requires call.runtime != nil && argsOK(call.ArgumentList)
+//@   requires forall i int :: 0 <= i && i < len(call.ArgumentList) ==> jsValue(call.ArgumentList[i]) && call.ArgumentList[i].kind != valueObject
+//@   at_call builtinDateBeforeSet : arg1 == 1 && arg2 == true
+//@   at_call (*ecmaTime).goTime : arg0 == ecmaTime && arg0.millisecond == value[0]
+//@   calls (*ecmaTime).goTime(_) whenret !nanValue(result)
+//@ func builtinDateSetUTCMilliseconds
+//@   props C12
+//@   nosafety
+//@   requires call.runtime != nil && argsOK(call.ArgumentList)
+//@   requires forall i int :: 0 <= i && i < len(call.ArgumentList) ==> jsValue(call.ArgumentList[i]) && call.ArgumentList[i].kind != valueObject
+//@   at_call builtinDateBeforeSet : arg1 == 1 && arg2 == false
+//@   at_call (*ecmaTime).goTime : arg0 == ecmaTime && arg0.millisecond == value[0]
+//@   calls (*ecmaTime).goTime(_) whenret !nanValue(result)
+//@ func builtinDateSetSeconds
+//@   props C12
+//@   nosafety
+//@   requires call.runtime != nil && argsOK(call.ArgumentList)
+//@   requires forall i int :: 0 <= i && i < len(call.ArgumentList) ==> jsValue(call.ArgumentList[i]) && call.ArgumentList[i].kind != valueObject
+//@   at_call builtinDateBeforeSet : arg1 == 2 && arg2 == true
+//@   at_call (*ecmaTime).goTime : arg0 == ecmaTime && arg0.second == value[0] && (len(value) > 1 ==> arg0.millisecond == value[1])
+//@   calls (*ecmaTime).goTime(_) whenret !nanValue(result)
+//@ func builtinDateSetUTCSeconds
+//@   props C12
+//@   nosafety
+//@   requires call.runtime != nil && argsOK(call.ArgumentList)
+//@   requires forall i int :: 0 <= i && i < len(call.ArgumentList) ==> jsValue(call.ArgumentList[i]) && call.ArgumentList[i].kind != valueObject
+//@   at_call builtinDateBeforeSet : arg1 == 2 && arg2 == false
+//@   at_call (*ecmaTime).goTime : arg0 == ecmaTime && arg0.second == value[0] && (len(value) > 1 ==> arg0.millisecond == value[1])
+//@   calls (*ecmaTime).goTime(_) whenret !nanValue(result)
+//@ func builtinDateSetMinutes
+//@   props C12
+//@   nosafety
+//@   requires call.runtime != nil && argsOK(call.ArgumentList)
+//@   requires forall i int :: 0 <= i && i < len(call.ArgumentList) ==> jsValue(call.ArgumentList[i]) && call.ArgumentList[i].kind != valueObject
+//@   at_call builtinDateBeforeSet : arg1 == 3 && arg2 == true
+//@   at_call (*ecmaTime).goTime : arg0 == ecmaTime && arg0.minute == value[0] && (len(value) > 1 ==> arg0.second == value[1]) && (len(value) > 2 ==> arg0.millisecond == value[2])
+//@   calls (*ecmaTime).goTime(_) whenret !nanValue(result)
+//@ func builtinDateSetUTCMinutes
+//@   props C12
+//@   nosafety
+//@   requires call.runtime != nil && argsOK(call.ArgumentList)
+//@   requires forall i int :: 0 <= i && i < len(call.ArgumentList) ==> jsValue(call.ArgumentList[i]) && call.ArgumentList[i].kind != valueObject
+//@   at_call builtinDateBeforeSet : arg1 == 3 && arg2 == false
+//@   at_call (*ecmaTime).goTime : arg0 == ecmaTime && arg0.minute == value[0] && (len(value) > 1 ==> arg0.second == value[1]) && (len(value) > 2 ==> arg0.millisecond == value[2])
+//@   calls (*ecmaTime).goTime(_) whenret !nanValue(result)
+//@ func builtinDateSetHours
+//@   props C12
+//@   nosafety
+//@   requires call.runtime != nil && argsOK(call.ArgumentList)
+//@   requires forall i int :: 0 <= i && i < len(call.ArgumentList) ==> jsValue(call.ArgumentList[i]) && call.ArgumentList[i].kind != valueObject
+//@   at_call builtinDateBeforeSet : arg1 == 4 && arg2 == true
+//@   at_call (*ecmaTime).goTime : arg0 == ecmaTime && arg0.hour == value[0] && (len(value) > 1 ==> arg0.minute == value[1]) && (len(value) > 2 ==> arg0.second == value[2]) && (len(value) > 3 ==> arg0.millisecond == value[3])
+//@   calls (*ecmaTime).goTime(_) whenret !nanValue(result)
+//@ func builtinDateSetUTCHours
+//@   props C12
+//@   nosafety
+//@   requires call.runtime != nil && argsOK(call.ArgumentList)
+//@   requires forall i int :: 0 <= i && i < len(call.ArgumentList) ==> jsValue(call.ArgumentList[i]) && call.ArgumentList[i].kind != valueObject
+//@   at_call builtinDateBeforeSet : arg1 == 4 && arg2 == false
+//@   at_call (*ecmaTime).goTime : arg0 == ecmaTime && arg0.hour == value[0] && (len(value) > 1 ==> arg0.minute == value[1]) && (len(value) > 2 ==> arg0.second == value[2]) && (len(value) > 3 ==> arg0.millisecond == value[3])
+//@   calls (*ecmaTime).goTime(_) whenret !nanValue(result)
+//@ func builtinDateSetDate
+//@   props C12
+//@   nosafety
+//@   requires call.runtime != nil && argsOK(call.ArgumentList)
+//@   requires forall i int :: 0 <= i && i < len(call.ArgumentList) ==> jsValue(call.ArgumentList[i]) && call.ArgumentList[i].kind != valueObject
+//@   at_call builtinDateBeforeSet : arg1 == 1 && arg2 == true
+//@   at_call (*ecmaTime).goTime : arg0 == ecmaTime && arg0.day == value[0]
+//@   calls (*ecmaTime).goTime(_) whenret !nanValue(result)
+//@ func builtinDateSetUTCDate
+//@   props C12
+//@   nosafety
+//@   requires call.runtime != nil && argsOK(call.ArgumentList)
+//@   requires forall i int :: 0 <= i && i < len(call.ArgumentList) ==> jsValue(call.ArgumentList[i]) && call.ArgumentList[i].kind != valueObject
+//@   at_call builtinDateBeforeSet : arg1 == 1 && arg2 == false
+//@   at_call (*ecmaTime).goTime : arg0 == ecmaTime && arg0.day == value[0]
+//@   calls (*ecmaTime).goTime(_) whenret !nanValue(result)
+//@ func builtinDateSetMonth
+//@   props C12
+//@   nosafety
+//@   requires call.runtime != nil && argsOK(call.ArgumentList)
+//@   requires forall i int :: 0 <= i && i < len(call.ArgumentList) ==> jsValue(call.ArgumentList[i]) && call.ArgumentList[i].kind != valueObject
+//@   at_call builtinDateBeforeSet : arg1 == 2 && arg2 == true
+//@   at_call (*ecmaTime).goTime : arg0 == ecmaTime && arg0.month == value[0] && (len(value) > 1 ==> arg0.day == value[1])
+//@   calls (*ecmaTime).goTime(_) whenret !nanValue(result)
+//@ func builtinDateSetUTCMonth
+//@   props C12
+//@   nosafety
+//@   requires call.runtime != nil && argsOK(call.ArgumentList)
+//@   requires forall i int :: 0 <= i && i < len(call.ArgumentList) ==> jsValue(call.ArgumentList[i]) && call.ArgumentList[i].kind != valueObject
+//@   at_call builtinDateBeforeSet : arg1 == 2 && arg2 == false
+//@   at_call (*ecmaTime).goTime : arg0 == ecmaTime && arg0.month == value[0] && (len(value) > 1 ==> arg0.day == value[1])
+//@   calls (*ecmaTime).goTime(_) whenret !nanValue(result)
+//@ func builtinDateSetFullYear
+//@   props C12
+//@   nosafety
+//@   requires call.runtime != nil && argsOK(call.ArgumentList)
+//@   requires forall i int :: 0 <= i && i < len(call.ArgumentList) ==> jsValue(call.ArgumentList[i]) && call.ArgumentList[i].kind != valueObject
+//@   at_call builtinDateBeforeSet : arg1 == 3 && arg2 == true
+//@   at_call (*ecmaTime).goTime : arg0 == ecmaTime && arg0.year == value[0] && (len(value) > 1 ==> arg0.month == value[1]) && (len(value) > 2 ==> arg0.day == value[2])
+//@   calls (*ecmaTime).goTime(_) whenret !nanValue(result)
+//@ func builtinDateSetUTCFullYear
+//@   props C12
+//@   nosafety
+//@   requires call.runtime != nil && argsOK(call.ArgumentList)
+//@   requires forall i int :: 0 <= i && i < len(call.ArgumentList) ==> jsValue(call.ArgumentList[i]) && call.ArgumentList[i].kind != valueObject
+//@   at_call builtinDateBeforeSet : arg1 == 3 && arg2 == false
+//@   at_call (*ecmaTime).goTime : arg0 == ecmaTime && arg0.year == value[0] && (len(value) > 1 ==> arg0.month == value[1]) && (len(value) > 2 ==> arg0.day == value[2])
+//@   calls (*ecmaTime).goTime(_) whenret !nanValue(result)
